@@ -49,7 +49,8 @@ FILES = [
 ]
 REQUIRED_THEOREMS = ["C14_frame_rng", "C14_frame_rng_unchanged", "C14_seeded_determinism", "C14_read_only_step",
                      "C14_read_only", "C14_read_only_skeleton", "C14_draw_count", "C14_draw_count_closed_forms",
-                     "C14_different_seed_partial", "C14_seed_accepted", "C14_seed_rejected", "C14_same_stream_same_results"]
+                     "C14_different_seed_partial", "C14_seed_accepted", "C14_seed_rejected", "C14_same_stream_same_results",
+                     "C14_read_only_ops_ext", "C14_fit_evaluator_calls", "C14_fit_evaluator_draws", "C14_eval_epochs_closed"]
 EXTRA_TRUSTED = [
     "C14 is PARTIAL: bit-identity across runs rests on the determinism of torch's CPU kernels (single thread) and "
     "'different seed => different draws' on torch's PRNG; both are only observed by the three-process replay, not proved",
@@ -70,7 +71,10 @@ RULE = ("case = one history: [different per-run prefix: foreign numpy/random see
         "optimizer, bases for complex/mixed), eval, metrics (fidelity/KL/NLL), rotate_*, gradient methods, "
         "compute_batch_gradients, save, load} with foreign numpy/random draws interleaved differently per run, plus fixed "
         "malformed histories (missing slot, num_samples=0, pos_batch_size=0, missing bases, no reference-basis rows, "
-        "missing file); every generated history applies every class of operation at least once to its first object "
+        "missing file); every generated history applies EVERY operation class of the API table (one per public callable found by "
+        "introspection: amplitude, phase, rho(v,v'), pi, pi_grad, am_grads, ph_grads, importance_sampling_*, subspace_vector, composite observables, "
+        "Observable.sample, System.statistics_from_samples, sample/statistics(overwrite=True), save(metadata=), rotate_*(psi=/rho=, unitaries=None, "
+        "include_extras), fit with an ObservableEvaluator callback / scheduler / time) at least once to its first object "
         "(kind cycling pos/cplx/dens), every third one builds an unseeded object before the seeding (parameters compared "
         "from slot b=1); non-trivial iff it contains a fit and (a statistics call or a save/load pair or >= 2 state kinds) "
         "and runs 1 and 2 each contain >= 2 foreign operations; distinct by hash of the three op lists")
@@ -170,7 +174,62 @@ def alt_run(ops, seed_at):
     return [dict(o, s=o["alt"], alt=o["s"]) if (i >= seed_at and o["t"] == "setSeed" and "alt" in o) else o for i, o in enumerate(ops)]
 
 
-READ_ONLY = {"sample", "statistics", "eval", "metric", "rotate", "gradient", "batchGradient", "save"}
+READ_ONLY = {"sample", "obsSample", "statistics", "eval", "metric", "rotate", "gradient", "batchGradient", "save"}
+
+# ---------------------------------------------------------------- the public API <-> operation classes
+# Every public callable of the library that takes (or is a method of) a model, as found by INTROSPECTION in the runner process
+# (c14_runner.public_api), must be listed here with the operation class(es) that execute it: (t, what) pairs of runner ops, or an
+# exclusion with its reason.  A callable that appears in the API but not here breaks the correspondence (aux point
+# "public callables without an operation class"); so does an entry that is listed here but never executed in the run.
+API_OPS = {
+    "qucumber.set_random_seed": [("setSeed", None)],
+    "state.sample": [("sample", None)], "state.fit": [("fit", None)], "state.reinitialize_parameters": [("reinit", None)],
+    "state.save": [("save", None)], "state.load": [("load", None)],
+    "state.compute_batch_gradients": [("batchGradient", None)],
+    "state.psi": [("eval", "psi")], "state.rho": [("eval", "psi"), ("eval", "rho2")], "state.pi": [("eval", "pi")],
+    "state.amplitude": [("eval", "amplitude")], "state.phase": [("eval", "phase")],
+    "state.probability": [("eval", "probability")], "state.normalization": [("eval", "normalization")],
+    "state.compute_normalization": [("eval", "compute_normalization")],
+    "state.generate_hilbert_space": [("eval", "hilbert_space")], "state.subspace_vector": [("eval", "subspace_vector")],
+    "state.importance_sampling_denominator": [("eval", "is_denominator")],
+    "state.importance_sampling_numerator": [("eval", "is_numerator")],
+    "state.importance_sampling_weight": [("eval", "is_weight")],
+    "state.gradient": [("gradient", "gradient")], "state.positive_phase_gradients": [("gradient", "positive_phase")],
+    "state.compute_exact_gradients": [("gradient", "exact")], "state.compute_exact_grads": [("gradient", "exact_grads")],
+    "state.rotated_gradient": [("gradient", "rotated")], "state.am_grads": [("gradient", "am_grads")],
+    "state.ph_grads": [("gradient", "ph_grads")], "state.pi_grad": [("gradient", "pi_grad")],
+    "observable.apply": [("eval", "apply")], "observable.sample": [("obsSample", None)],
+    "observable.statistics": [("statistics", None)], "observable.statistics_from_samples": [("eval", "sfs")],
+    "System.statistics": [("statistics", None)], "System.statistics_from_samples": [("eval", "sys_sfs")],
+    "training_statistics.fidelity": [("metric", "fidelity")], "training_statistics.KL": [("metric", "KL")],
+    "training_statistics.NLL": [("metric", "NLL")],
+    "unitaries.rotate_psi": [("rotate", "rotate_psi")], "unitaries.rotate_rho": [("rotate", "rotate_rho")],
+    "unitaries.rotate_psi_inner_prod": [("rotate", "inner_prod")], "unitaries.rotate_rho_probs": [("rotate", "rho_probs")],
+}
+API_EXCLUDED = {
+    "state.autoload": "static constructor: builds a NEW object and loads into it (= construct + load; C11 examines it); not a read-only operation",
+    "observables.to_01": "pure conversion of a tensor, takes no model", "observables.to_pm1": "pure conversion of a tensor, takes no model",
+    "unitaries.create_dict": "builds a dictionary, takes no model",
+}
+
+
+def op_class(op):
+    return (op["t"], op.get("what") if op["t"] in ("eval", "metric", "rotate", "gradient") else None)
+
+
+def check_api(ctx, api, executed):
+    """the introspected API against the operation table and against what this run actually executed"""
+    case = {"api": api}
+    missing = sorted(n for n in api if n not in API_OPS and n not in API_EXCLUDED)
+    stale = sorted(n for n in list(API_OPS) + list(API_EXCLUDED) if n not in api)
+    ctx.point("public callables without an operation class (introspected API vs the operation table)", "aux", missing, [], case,
+              exact=True, sig="api/unclassified", theorem="C14_read_only_ops_ext / C14_read_only_step")
+    ctx.point("operation-table entries that are no longer public callables", "aux", stale, [], case, exact=True, sig="api/stale")
+    never = sorted(f"{n} -> {t}:{w}" for n, cl in API_OPS.items() if n in api for (t, w) in cl if (t, w) not in executed)
+    ctx.point("operation classes of public callables never executed in this run", "aux", never, [], case, exact=True,
+              sig="api/not-executed", theorem="C14_read_only_step")
+    ctx.count("api_public_callables", len(api))
+    ctx.count("api_operation_classes_executed", len({c for cl in API_OPS.values() for c in cl} & set(executed)))
 THM_DET = "C14_seeded_determinism / C14_frame_rng"
 THM_RO = "C14_read_only_step / C14_read_only"
 
@@ -221,14 +280,20 @@ def model_op(op, kinds):
     if t == "sample":
         return {"t": t, "slot": op["slot"], "k": op["k"], "num": op["num"],
                 "init": None if op.get("init") is None else len(op["init"])}
+    if t == "obsSample":
+        return {"t": t, "slot": op["slot"], "k": op["k"], "num": op["num"],
+                "init": None if op.get("init") is None else len(op["init"]), "arg": _arg({"obs": op["obs"], "ow": op.get("overwrite")})}
     if t == "statistics":
         return {"t": t, "slot": op["slot"], "ns": op["ns"], "nc": op["nc"], "bi": op["bi"], "steps": op["steps"],
-                "init": None if op.get("init") is None else len(op["init"]), "arg": _arg({"obs": op["obs"]})}
+                "init": None if op.get("init") is None else len(op["init"]), "arg": _arg({"obs": op["obs"], "ow": op.get("overwrite")})}
     if t == "fit":
         bases = op.get("bases")
         M = None if bases is None else sum(1 for b in bases if set(b) <= {"Z"})
-        return {"t": t, "slot": op["slot"], "N": len(op["data"]), "epochs": op["epochs"], "start": op["start"],
-                "posB": op["posB"], "negB": op["negB"], "k": op["k"], "bases": M, "arg": _arg(op)}
+        m = {"t": t, "slot": op["slot"], "N": len(op["data"]), "epochs": op["epochs"], "start": op["start"],
+             "posB": op["posB"], "negB": op["negB"], "k": op["k"], "bases": M, "arg": _arg(op)}
+        if op.get("evaluator") is not None:
+            m["evaluator"] = {k: op["evaluator"][k] for k in ("period", "ns", "nc", "bi", "steps")}
+        return m
     if t in ("eval", "metric", "rotate", "gradient"):
         return {"t": t, "slot": op["slot"], "arg": _arg(op)}
     if t == "batchGradient":
@@ -281,30 +346,67 @@ def probe(slot, n):
     return {"t": "sample", "slot": slot, "k": 0, "num": -(-32 // n) + 2, "init": None, "probe": True}
 
 
-CLASSES = ["sample", "statistics", "fit", "eval", "metric", "rotate", "gradient", "batchGradient", "reinit", "save", "load"]
-WEIGHTS = [16, 14, 10, 8, 10, 8, 8, 6, 4, 5, 5]
+CLASSES = ["sample", "statistics", "fit", "eval", "metric", "rotate", "gradient", "batchGradient", "reinit", "save", "load", "obsSample"]
+WEIGHTS = [16, 14, 10, 8, 10, 8, 8, 6, 4, 5, 5, 6]
 _CUM = {"sample": 0.0, "statistics": 0.2, "fit": 0.4, "eval": 0.55, "metric": 0.6, "rotate": 0.7, "gradient": 0.8,
         "batchGradient": 0.85, "reinit": 0.9, "save": 0.95, "load": 0.98}
 
 
+def whats_of(kind):
+    """every (class, what) the runner can execute on an object of this kind"""
+    wf = kind != "dens"
+    ev = ["psi", "probability", "normalization", "apply", "sfs", "sys_sfs", "is_denominator", "is_numerator", "is_weight",
+          "hilbert_space", "subspace_vector", "compute_normalization"] + (["amplitude", "phase"] if wf else ["rho2", "pi"])
+    gr = ["gradient", "positive_phase", "exact"] + {"pos": ["exact_grads"], "cplx": ["rotated", "am_grads", "ph_grads"],
+                                                     "dens": ["rotated", "am_grads", "ph_grads", "pi_grad"]}[kind]
+    ro = ["rotate_psi", "inner_prod"] if wf else ["rotate_rho", "rho_probs"]
+    return {"eval": ev, "gradient": gr, "rotate": ro, "metric": ["fidelity", "KL", "NLL"]}
+
+
+def all_wants(kind):
+    """one request per operation class the API table names, for an object of this kind (save before load)"""
+    w = whats_of(kind)
+    return (["sample", "sample:ow", "obsSample", "statistics", "statistics:ow", "fit", "fit:evaluator", "batchGradient", "reinit", "save", "save:md"]
+            + [f"{t}:{x}" for t in ("eval", "metric", "rotate", "gradient") for x in w[t]])
+
+
 def gen_lib_op(rng, slot, cons, files, want=None):
-    """one library operation of class `want` (random class if None) on the object in `slot` (constructed by `cons`)"""
+    """one library operation of class `want` (random class if None; "class:what" forces the variant) on the object in `slot`
+    (constructed by `cons`)"""
     kind, n = cons["kind"], cons["n"]
     pos = kind == "pos"
-    c = _CUM[want or rng.choices(CLASSES, weights=WEIGHTS)[0]]
+    forced = None
+    if want and ":" in want:
+        want, forced = want.split(":")
+    cls = want or rng.choices(CLASSES, weights=WEIGHTS)[0]
+    W = whats_of(kind)
     rows = lambda lo=2, hi=6: bits_rows(rng, rng.randint(lo, hi), n)  # noqa: E731
     some_bases = lambda k: None if pos else [rand_basis(rng, n) for _ in range(k)]  # noqa: E731
+    one_obs = lambda: rng.choice(["SigmaX", "SigmaY", "SigmaZ", "Neighbour", "SWAP", "Composite"])  # noqa: E731
+    if cls == "obsSample":
+        init = rows(1, 4) if rng.random() < 0.4 else None
+        op = {"t": "obsSample", "slot": slot, "obs": one_obs(), "k": rng.randint(0, 4), "num": rng.randint(1, 6), "init": init}
+        if init is not None and rng.random() < 0.5:
+            op["overwrite"] = True
+        return op
+    c = _CUM[cls]
     if c < 0.16:
-        if rng.random() < 0.3:
-            return {"t": "sample", "slot": slot, "k": rng.randint(0, 4), "num": rng.randint(1, 5), "init": rows(1, 4)}
+        if forced == "ow" or rng.random() < 0.4:
+            op = {"t": "sample", "slot": slot, "k": rng.randint(0, 4), "num": rng.randint(1, 5), "init": rows(1, 4)}
+            if forced == "ow" or rng.random() < 0.5:
+                op["overwrite"] = True  # the caller's chain tensor is overwritten; no parameter may be
+            return op
         return {"t": "sample", "slot": slot, "k": rng.randint(0, 5), "num": rng.randint(1, 9), "init": None}
     if c < 0.30:
-        obs = rng.choice([["SigmaX"], ["SigmaY"], ["SigmaZ"], ["SigmaXabs"], ["Neighbour"], ["SWAP"],
-                          ["SigmaZ", "SigmaX"], ["SigmaY", "NeighbourP", "SigmaZ"]])
+        obs = rng.choice([["SigmaX"], ["SigmaY"], ["SigmaZ"], ["SigmaXabs"], ["Neighbour"], ["SWAP"], ["Composite"],
+                          ["SigmaZ", "SigmaX"], ["SigmaY", "NeighbourP", "SigmaZ"], ["Composite", "SigmaZ"]])
         ns = rng.randint(1, 12)
-        return {"t": "statistics", "slot": slot, "obs": obs, "ns": ns, "nc": rng.choice([0, 1, 2, 3, 5, 20]),
-                "bi": rng.randint(0, 6), "steps": rng.randint(0, 3),
-                "init": rows(2, 4) if rng.random() < 0.2 else None}
+        op = {"t": "statistics", "slot": slot, "obs": obs, "ns": ns, "nc": rng.choice([0, 1, 2, 3, 5, 20]),
+              "bi": rng.randint(0, 6), "steps": rng.randint(0, 3),
+              "init": rows(2, 4) if (forced == "ow" or rng.random() < 0.3) else None}
+        if op["init"] is not None and (forced == "ow" or rng.random() < 0.5):
+            op["overwrite"] = True
+        return op
     if c < 0.50:
         N = rng.randint(2, 11) if pos else rng.randint(4, 11)
         data = bits_rows(rng, N, n)
@@ -320,17 +422,39 @@ def gen_lib_op(rng, slot, cons, files, want=None):
         negB = rng.choice([None, None, posB, 1, 2, 5])
         ep = rng.randint(1, 3)
         start = rng.choice([1, 1, 2]) if ep >= 2 else 1
-        return {"t": "fit", "slot": slot, "data": data, "bases": bases, "epochs": ep, "start": start, "posB": posB,
-                "negB": negB, "k": rng.randint(1, 3), "lr": rng.choice([0.1, 0.01, 0.5]),
-                "optimizer": rng.choice(["SGD", "SGD", "Adam", "Adadelta"])}
+        op = {"t": "fit", "slot": slot, "data": data, "bases": bases, "epochs": ep, "start": start, "posB": posB,
+              "negB": negB, "k": rng.randint(1, 3), "lr": rng.choice([0.1, 0.01, 0.5]),
+              "optimizer": rng.choice(["SGD", "SGD", "Adam", "Adadelta"])}
+        if forced == "evaluator" or rng.random() < 0.45:
+            # an evaluator callback that samples inside the epoch loop, every `period`-th epoch (the configuration most users run)
+            op["evaluator"] = {"period": rng.choice([1, 1, 2, 3]), "obs": rng.choice([["SigmaZ"], ["SigmaX", "SigmaZ"], ["Neighbour"], ["SWAP", "SigmaY"]]),
+                               "ns": rng.randint(1, 6), "nc": rng.choice([0, 1, 2, 3, 9]), "bi": rng.randint(0, 3), "steps": rng.randint(0, 2)}
+            if rng.random() < 0.5:
+                op["epochs"] = ep + rng.randint(1, 2)  # more epochs: evaluator draws between the shuffles of consecutive epochs
+        if rng.random() < 0.3:
+            op["sched"] = True
+        if rng.random() < 0.15:
+            op["time"] = True
+        return op
     if c < 0.58:
-        w = rng.choice(["psi", "probability", "normalization", "apply", "sfs"])
+        w = forced or rng.choice(W["eval"])
         op = {"t": "eval", "slot": slot, "what": w, "rows": rows(2, 5)}
         if w in ("apply", "sfs"):
-            op["obs"] = rng.choice(["SigmaX", "SigmaY", "SigmaZ", "Neighbour", "SWAP"])
+            op["obs"] = one_obs()
+        if w == "sys_sfs":
+            op["obss"] = rng.choice([["SigmaZ", "SigmaX"], ["Composite", "SigmaY"], ["SWAP"]])
+        if w in ("rho2", "pi", "is_numerator", "is_weight"):
+            op["rows2"] = bits_rows(rng, len(op["rows"]), n)
+        if w == "pi":
+            op["expand"] = rng.random() < 0.5
+        if w == "hilbert_space":
+            op["size"] = rng.choice([None, 1, n])
+        if w == "subspace_vector":
+            op["size"] = rng.choice([None, n])
+            op["num"] = rng.randrange(2 ** n)
         return op
     if c < 0.68:
-        w = rng.choice(["fidelity", "KL", "NLL"])
+        w = forced or rng.choice(["fidelity", "KL", "NLL"])
         if w == "fidelity":
             return {"t": "metric", "slot": slot, "what": w, "target": rand_target(rng, kind, n)}
         if w == "KL":
@@ -339,17 +463,25 @@ def gen_lib_op(rng, slot, cons, files, want=None):
         r = rows(2, 5)
         return {"t": "metric", "slot": slot, "what": w, "rows": r, "bases": some_bases(len(r)) if rng.random() < 0.7 else None}
     if c < 0.76:
-        if kind == "dens":
-            w = rng.choice(["rotate_rho", "rho_probs"])
-        else:
-            w = rng.choice(["rotate_psi", "inner_prod"])
-        return {"t": "rotate", "slot": slot, "what": w, "basis": rand_basis(rng, n), "rows": rows(1, 4)}
+        w = forced or rng.choice(W["rotate"])
+        op = {"t": "rotate", "slot": slot, "what": w, "basis": rand_basis(rng, n), "rows": rows(1, 4)}
+        if rng.random() < 0.35:
+            op["given"] = True  # psi= / rho= given explicitly
+        if rng.random() < 0.3:
+            op["default_dict"] = True  # unitaries=None
+        if w in ("inner_prod", "rho_probs") and rng.random() < 0.3:
+            op["extras"] = True
+        return op
     if c < 0.84:
-        w = rng.choice(["gradient", "positive_phase", "exact"] + ([] if pos else ["rotated"]))
+        w = forced or rng.choice(W["gradient"])
         r = rows(2, 5)
         op = {"t": "gradient", "slot": slot, "what": w, "rows": r, "bases": some_bases(len(r))}
         if w == "rotated":
             op["basis"] = rand_basis(rng, n, allow_z=False)
+        if w == "pi_grad":
+            op["rows2"] = bits_rows(rng, len(r), n)
+            op["phase"] = rng.random() < 0.5
+            op["expand"] = rng.random() < 0.5
         return op
     if c < 0.89:
         r = rows(2, 4)
@@ -362,7 +494,12 @@ def gen_lib_op(rng, slot, cons, files, want=None):
     if c < 0.97 or not cands:
         path = rng.randint(0, 3)
         files[path] = key  # last writer of that path, in execution order
-        return {"t": "save", "slot": slot, "path": path}
+        op = {"t": "save", "slot": slot, "path": path}
+        if forced == "md":
+            op["metadata"] = rng.choice([{"epoch": 3}, {"note": "x", "lr": 0.1, "nested": {"a": [1, 2]}}])
+        elif rng.random() < 0.4:
+            op["metadata"] = rng.choice([{}, {"epoch": 3}, {"note": "x", "lr": 0.1, "nested": {"a": [1, 2]}}])
+        return op
     # load a file last written by an object of the same architecture
     return {"t": "load", "slot": slot, "path": rng.choice(cands)}
 
@@ -410,7 +547,8 @@ def gen_history(rng, idx):
         # the first object gets every class of operation once (save before load), later ones a random selection
         wants = [None] * max(1, length // nobj)
         if j == 0:
-            wants = [w for w in CLASSES if w != "load"] + [None] * (length // 3)
+            # every operation class the API table names for this kind, once (save before load), plus a random selection
+            wants = all_wants(c["kind"]) + [None] * (length // 3)
             rng.shuffle(wants)
             wants.insert(rng.randint(wants.index("save") + 1, len(wants)), "load")
         for w in wants:
@@ -543,7 +681,7 @@ def model_runs(ctx, case):
 def closed_form(ctx, op, ops):
     """the model's closed-form draw count (driver op c14.counts) for construct / reinit / sample / statistics / fit"""
     t = op["t"]
-    if t not in ("construct", "reinit", "sample", "statistics", "fit", "batchGradient"):
+    if t not in ("construct", "reinit", "sample", "obsSample", "statistics", "fit", "batchGradient"):
         return None
     cons = [o for o in ops if o["t"] == "construct"]
     c = op if t == "construct" else (cons[op["slot"]] if op["slot"] < len(cons) else None)
@@ -551,7 +689,7 @@ def closed_form(ctx, op, ops):
         return None
     req = {"kind": c["kind"], "n": c["n"], "h": c["h"], "a": c.get("a")}
     m = model_op(op, None)
-    if t == "sample":
+    if t in ("sample", "obsSample"):
         req["sample"] = {"k": m["k"], "num": m["num"], "init": m["init"]}
     if t == "batchGradient":
         req["sample"] = {"k": m["k"], "num": 0, "init": m["rows"]}
@@ -559,9 +697,11 @@ def closed_form(ctx, op, ops):
         req["stat"] = {k: m[k] for k in ("ns", "nc", "bi", "steps", "init")}
     if t == "fit":
         req["fit"] = {k: m[k] for k in ("N", "epochs", "start", "posB", "negB", "k", "bases")}
+        if "evaluator" in m:
+            req["fit"]["evaluator"] = m["evaluator"]
     res = ctx.driver.call("c14.counts", **req)
-    key = {"construct": "init", "reinit": "init", "sample": "sample", "batchGradient": "sample", "statistics": "stat",
-           "fit": "fit"}[t]
+    key = {"construct": "init", "reinit": "init", "sample": "sample", "obsSample": "sample", "batchGradient": "sample",
+           "statistics": "stat", "fit": "fit"}[t]
     return res[key]
 
 
@@ -632,11 +772,13 @@ def check_case(ctx, case, impl):
                 io = rec["out"]
                 ctx.point("result kind", "aux", [io["kind"], io.get("error")], [mo["kind"], mo.get("error")], ccase, exact=True,
                           sig=f"outkind/{op['t']}")
-                ctx.point("torch random calls (ordered, with element counts)", "aux", rec["calls"], m["calls"], ccase,
-                          exact=True, sig=f"calls/{op['t']}", theorem="C14_draw_count_step")
+                # WHICH torch function produces the elements (bernoulli / rand_like < p / ...) and in which order the calls of one
+                # operation are made is an implementation detail; the frame model is about HOW MUCH of the global stream an
+                # operation consumes: only the element total per operation is compared (the ordered lists stay in the replay detail)
+                ctx.point("elements drawn from torch's global stream by this operation = model draws", "aux",
+                          sum(c[1] for c in rec["calls"]), m["draws"], ccase, exact=True, sig=f"draws/{op['t']}",
+                          theorem="C14_draw_count_step")
                 if r == 0:
-                    ctx.point("torch draws (sum of elements) = model draws", "aux", sum(c[1] for c in rec["calls"]), m["draws"],
-                              ccase, exact=True, sig=f"draws/{op['t']}", theorem="C14_draw_count_step")
                     cf = closed_form(ctx, op, ops)
                     if cf is not None and io["kind"] != "err":
                         ctx.point("torch draws = closed form in the arguments", "aux", sum(c[1] for c in rec["calls"]), cf, ccase,
@@ -651,8 +793,9 @@ def check_case(ctx, case, impl):
                 ctx.point("parameters written outside the model's write set", "aux",
                           sorted(set(changed) - set(m["written"])), [], ccase, exact=True, sig=f"write-set/{op['t']}",
                           theorem="C14_read_only_step / C14_read_only_other_objects")
-                seeds_expected = [["manual_seed", op["s"]]] if (op["t"] == "setSeed" and op["cpu"]) else []
-                ctx.point("re-seeding calls", "aux", rec["seeds"], seeds_expected, ccase, exact=True, sig=f"seeding/{op['t']}")
+                if op["t"] != "setSeed":  # (how set_random_seed reaches torch is judged by the generator state, see the oracle above)
+                    ctx.point("re-seeding calls made by an operation that is not a seeding", "aux", rec["seeds"], [], ccase, exact=True,
+                              sig=f"seeding/{op['t']}")
                 if m["written"] and not changed and lib:
                     ctx.count("model-write-without-observed-change")
             # model-free frame observation: library code never touches numpy's / Python's global generator
@@ -834,6 +977,13 @@ def run_cases(ctx, cases):
                          "were executed again in fresh processes: run-to-run nondeterminism of the runtime, outside the claim")
             if {x for im in again for x in im["src"]} == {x for x in impl[2]["src"]}:
                 impl = again + [impl[2]]
+        if impl[0].get("api") is not None:
+            ctx.c14_api = impl[0]["api"]
+        done = getattr(ctx, "c14_executed", set())
+        for op, rec in zip(case["runs"][0], impl[0]["records"]):
+            if rec["out"]["kind"] != "err":
+                done.add(op_class(op))
+        ctx.c14_executed = done
         check_case(ctx, case, impl)
 
 
@@ -844,8 +994,10 @@ def gen_cases(ctx, count, sweeps=1):
 
 def run(ctx):
     ctx.rule = RULE
-    count = 60 if ctx.tier == "thorough" else 5
+    count = 60 if ctx.tier == "thorough" else 4
     run_cases(ctx, gen_cases(ctx, count, sweeps=6 if ctx.tier == "thorough" else 1))
+    # completeness of the enumeration of operations: the public API as found by introspection in the runner processes
+    check_api(ctx, getattr(ctx, "c14_api", []), getattr(ctx, "c14_executed", set()))
 
 
 def search(ctx):
